@@ -89,7 +89,9 @@ def gen_history(rng, acc, rej):
         return c
     shape = rng.choice(['plain', 'plain', 'construct_first', 'same_object', 'rejected_nolink'])
     n = rng.randrange(0, 7)
-    ptext = rng.choice(acc + rej[:2])
+    # probes: accepted texts, texts with a compilation fault and texts with a syntax error (the failure, too, must not depend on
+    # the history or the hash seed)
+    ptext = rng.choice(acc + rej[:2] + rej[-3:]) if rng.random() < 0.85 else rng.choice(rej[-3:])
     if shape == 'construct_first':
         # several objects are constructed before any is used
         ids = [new(rng.choice(acc + rej)) for _ in range(rng.randrange(1, 4))]
